@@ -319,7 +319,7 @@ theorem doActionCore_foreign (w : World) (mid : Nat) (batch : Option Txn) (a : A
     | cancel tg red force => cases batch <;> simp [txnCancel_foreign]
     | update tg pers force => cases batch <;> simp [txnUpdate_foreign]
     | replace tg price v force => cases batch <;> simp [txnReplace_foreign]
-    | batchBegin c => rfl
+    | batchBegin c => cases batch <;> simp
     | batchExecute => cases batch <;> simp
     | batchEnd => cases batch <;> simp
 
